@@ -15,7 +15,7 @@ def dump(g):
 
 
 def consistent(ctx, g, what, detail):
-    st = refs.graph_structure_ok(g)
+    st = refs.graph_structure_ok(g, allow_dead_ends=getattr(ctx, 'allow_dead_ends', False))
     a = ctx.ok('rewrite.structure-after', st is None, f'after {what}: {st}', detail)
     b = ctx.ok('rewrite.is_consistent-after', bool(g.is_consistent()), f'after {what}: is_consistent() is False', detail)
     return a and b
@@ -44,6 +44,9 @@ def widths(g):
 def apply_rewrite(ctx, g, poly, rng, L, label_hist):
     """Applies one random rewrite in place; returns the expected polynomial afterwards."""
     op = str(rng.choice(['simplify', 'merge', 'rename-node', 'rename-edge', 'add', 'flip', 'illegal-rename']))
+    if getattr(ctx, 'allow_dead_ends', False):
+        # graphs with dead-end nodes: only the rewrites whose meaning does not depend on every node lying on a start-to-end path
+        op = str(rng.choice(['simplify', 'merge', 'merge', 'rename-node', 'rename-edge']))
     detail = {'before': dump(g), 'op': op, 'history': list(label_hist)}
     ctx.cur_info = detail
     if op == 'simplify':
@@ -64,7 +67,7 @@ def apply_rewrite(ctx, g, poly, rng, L, label_hist):
         ctx.count('simplify.terminates-within-budget')
         ctx.ok('simplify.returns-self', r is g, 'simplify must return the graph', detail)
         ctx.ok('simplify.counts-do-not-increase', len(g.nodes) <= n0 and len(g.edges) <= e0, f'nodes {n0}->{len(g.nodes)}, edges {e0}->{len(g.edges)}', detail)
-        if consistent(ctx, g, op, detail):
+        if consistent(ctx, g, op, detail) and not getattr(ctx, 'allow_dead_ends', False):
             w1 = widths(g)
             ctx.ok('simplify.layer-widths-do-not-increase', len(w1) == len(w0) and all(a <= b for a, b in zip(w1, w0)), f'widths {w0} -> {w1}', detail)
             # fixed point: nothing mergeable is left
@@ -182,9 +185,12 @@ def history_case(ctx, idx, rng):
     ctx.pool = pool
     g = gen.rand_graph(rng, L, idbase=int(rng.integers(0, 4)), maxw=(4 if rng.random() < 0.3 else 3) if idx % 6 != 1 else 2, nops=3, charges=charges, pool=pool, zero_edges=bool(idx % 4 == 3))
     twins = 0
+    ctx.allow_dead_ends = False
     if idx % 3 == 1:
         # duplicated path prefixes / suffixes: twin nodes reached through IDENTICAL operator lists, with equal or with different labels
-        twins = gen.add_twin_paths(rng, g)
+        dead = bool(idx % 9 == 4)
+        twins = gen.add_twin_paths(rng, g, dead_ends=dead)
+        ctx.allow_dead_ends = dead
     near = idx % 5 == 2
     if near:
         # coefficients that agree to 6..12 digits without being equal (a tolerance-based operator comparison would merge distinct edges);
@@ -203,7 +209,9 @@ def history_case(ctx, idx, rng):
         if not consistent(ctx, g, hist[-1], detail):
             raise CaseAbort()
         got, dep = refs.graph_poly(g)
-        ctx.ok('rewrite.length-kept', dep == L and g.length == L, f'after {hist[-1]}: length {g.length}', detail)
+        if not ctx.allow_dead_ends:
+            # (the library's `length` follows first out-edges and is not meaningful once a dead end exists)
+            ctx.ok('rewrite.length-kept', dep == L and g.length == L, f'after {hist[-1]}: length {g.length}', detail)
         if not ctx.ok('rewrite.polynomial', same(got, exp), f'after {hist[-1]}: graph denotes {dict(list(got.items())[:4])}..., expected {dict(list(exp.items())[:4])}...', detail):
             raise CaseAbort()
         poly = exp
